@@ -9,6 +9,10 @@
 //   E                                    native <op> ... ret=<r> pt=<p>
 //                                        E
 //
+// (operation `cfg <kind> <field>=<value> ...`: the configuration conversions, see config.rs; its two
+// lines carry the binding-side and the native-side FIELD VALUES and are compared by the oracle's rule
+// table, not for equality)
+//
 // Engine `ffi`: every operation is executed twice on two identical, freshly created databases:
 //   * `ffi`    through the exported C functions `dnp3_database_*` of this crate (arguments are the
 //              C structs a foreign caller would pass: enums as integers, flags, time stamps with a
@@ -39,6 +43,10 @@ use dnp3::outstation::database::*;
 use dnp3::outstation::*;
 
 use crate::ffi;
+
+// configuration conversions (operation `cfg`), see the header of that file
+#[path = "/verif/harness_ffi/config.rs"]
+mod config;
 
 struct Script {
     id: String,
@@ -724,6 +732,15 @@ fn run_os(op: &[String], fdb: *mut Database, ndb: &mut Database) -> (String, Str
 }
 
 fn run_ffi(script: &Script, obs: &mut Vec<String>) {
+    // `cfg` operations touch no database: a script made of them alone needs no outstation
+    if script.ops.iter().all(|op| op[0] == "cfg") {
+        for op in &script.ops {
+            let (f, n) = config::run_cfg(op);
+            obs.push(format!("ffi cfg {}{}", op[1], f));
+            obs.push(format!("native cfg {}{}", op[1], n));
+        }
+        return;
+    }
     let evbuf: u16 = script
         .cfg
         .get("evbuf")
@@ -735,6 +752,12 @@ fn run_ffi(script: &Script, obs: &mut Vec<String>) {
         let fdb: *mut Database = fdb_ref as *mut Database;
         native_side.transaction(|ndb| {
             for op in &script.ops {
+                if op[0] == "cfg" {
+                    let (f, n) = config::run_cfg(op);
+                    obs.push(format!("ffi cfg {}{}", op[1], f));
+                    obs.push(format!("native cfg {}{}", op[1], n));
+                    continue;
+                }
                 let (f, n) = match op[1].as_str() {
                     "bi" => run_bi(op, fdb, ndb),
                     "dbbi" => run_dbbi(op, fdb, ndb),
